@@ -332,7 +332,7 @@ func (comp) Gen(prop string, rng *rand.Rand, tier string) *core.History {
 	cfg := genConfig(prop, rng)
 	h.SetConfig(cfg.tokens()...)
 	g := &gen{rng: rng, known: map[string]*txSpec{}, uniform: core.Chance(rng, 3, 5), edgeSizes: core.Chance(rng, 1, 15)}
-	n := 12 + rng.Intn(40)
+	n := core.LongHistory(rng, 12+rng.Intn(40))
 	selW, remW := 22, 12
 	switch base {
 	case "C04", "C05", "C06", "C07":
